@@ -32,9 +32,16 @@ static const kind_t kinds[] = {
 	{33, OF_CODEC_LDPC_STAIRCASE_STABLE, 2, 3, 1, 3, 77, 0},
 	{34, OF_CODEC_LDPC_STAIRCASE_STABLE, 2, 4, 3, 4, 1, 0},		/* as 32 with longer symbols */
 	{35, OF_CODEC_LDPC_STAIRCASE_STABLE, 3, 3, 2, 3, 6, 0},		/* as 31 with another seed */
+	{36, OF_CODEC_LDPC_STAIRCASE_STABLE, 3, 3, 2, 3, 2147483646u, 0},	/* the largest valid seed */
+	{24, OF_CODEC_REED_SOLOMON_GF_2_M_STABLE, 6, 3, 1, 0, 0, 8},	/* n = 9: exponents of the generator construction exceed 2^4 - 1 */
+	{25, OF_CODEC_REED_SOLOMON_GF_2_M_STABLE, 6, 3, 1, 0, 0, 4},
 };
 static const kind_t *kind_of(int kd) { unsigned i; for (i = 0; i < sizeof kinds / sizeof kinds[0]; i++) if (kinds[i].kind == kd) return &kinds[i]; return &kinds[0]; }
+#ifndef OFV_BIG
 #define KMAX 3
+#else
+#define KMAX 6
+#endif
 #define RMAX 4
 #define NMAX (KMAX + RMAX)
 #define LMAX 3
